@@ -12,7 +12,7 @@ from harness.props import sched_common as sc
 ID = 'C06'
 PROPS_FILE = 'Props/Props_C06.v'
 EXTRA_TARGETS = ['Sched/Case.vo']
-CONST_PARTS = ('sched',)
+CONST_PARTS = ('sched', 'srcpass')
 FAIL = sc.BITS['c06']
 MISMATCH = sc.BITS['model_oracle']
 
